@@ -28,6 +28,8 @@ type vConnector struct {
 	conns    []*conn // client-side conns handed out
 	srvs     []*conn
 	maxLive  int
+	fault    *vFault
+	record   bool
 }
 
 func (c *vConnector) live() int {
@@ -57,6 +59,21 @@ func (c *vConnector) connect(ctx async.Context, addr string) (internalConn, stat
 	}
 	a, b := vnet.Pair(fmt.Sprintf("cli%d", i), fmt.Sprintf("srv%d", i))
 	a.Decisions, b.Decisions = false, false
+	if c.record {
+		a.Record()
+	}
+	if f := c.fault; f != nil {
+		c.fault = nil
+		end := a
+		if f.dir == 1 {
+			end = b
+		}
+		if f.mode == 0 {
+			end.CutAfterWritten(f.k)
+		} else {
+			end.HalfCloseAfterWritten(f.k)
+		}
+	}
 	srv := newConn(b, false, noopConnDelegate{}, c.handler, c.log, c.opts)
 	c.srvs = append(c.srvs, srv)
 	vsched.GoNamed(fmt.Sprintf("srv%d.run", i), func() { srv.run() })
@@ -359,4 +376,54 @@ func init() {
 			x.Outcome = "70004 attempts"
 		},
 	})
+}
+
+// ---- exported entry points for the rpc harness (package rpc cannot reach mpx internals) ----
+
+// VClient is a real mpx client over the scheduler-controlled connector.
+type VClient struct {
+	Client Client
+	vc     *vConnector
+	c      *client
+}
+
+// VNewClient builds an on-demand (auto=false) or auto-connect client whose server side runs handler.
+func VNewClient(x *vexp.Ctx, handler Handler, auto bool, script []int) *VClient {
+	mode := ClientMode_OnDemand
+	if auto {
+		mode = ClientMode_AutoConnect
+	}
+	c, vc := newVClient(x, mode, script, false)
+	vc.handler = handler
+	return &VClient{Client: c, vc: vc, c: c}
+}
+
+func (v *VClient) Dials() int         { return v.vc.dials }
+func (v *VClient) Live() int          { return v.vc.live() }
+func (v *VClient) Errors() []string   { return v.vc.log.Errors }
+func (v *VClient) Logger() *vLogger   { return v.vc.log }
+func (v *VClient) ServerConns() int   { return len(v.vc.srvs) }
+
+// RecordServer makes the i-th server connection record what it writes.
+func (v *VClient) ServerWritten(i int) []byte { return v.vc.srvs[i].conn.(*vnet.Conn).Written() }
+
+// FaultAfter arranges a transport fault on the NEXT connection: after k bytes written by the client (dir 0) or
+// the server (dir 1) the connection is cut (mode 0) or half-closed (mode 1).
+func (v *VClient) FaultAfter(dir int, k int64, mode int) { v.vc.fault = &vFault{dir, k, mode} }
+
+// RecordNext makes the next connection record both directions.
+func (v *VClient) RecordNext() { v.vc.record = true }
+
+// Written returns the bytes written so far on connection i by the client (dir 0) or server (dir 1).
+func (v *VClient) Written(i, dir int) []byte {
+	if dir == 0 {
+		return v.vc.conns[i].conn.(*vnet.Conn).Written()
+	}
+	return v.vc.srvs[i].conn.(*vnet.Conn).Written()
+}
+
+type vFault struct {
+	dir  int
+	k    int64
+	mode int
 }
